@@ -316,8 +316,28 @@ static void run_case( const std::vector<Toks>& ops, FILE* out )
             }
             fprintf( out, "modinfo %s\n", s.c_str() );
         }
-        // TODO(fam-c09): `syms <secidx>` (symbol_section_accessor get_symbols_num / get_symbol(index)) once
-        // Model/Symbols.lean is merged; until then dump::symbol_tables is the only symbol reader exercised
+        else if ( op == "syms" ) {
+            section* sec = c.elf->sections[(unsigned)num( t[1] )];
+            if ( !sec ) {
+                fprintf( out, "null\n" );
+                continue;
+            }
+            symbol_section_accessor a( *c.elf, sec );
+            Elf_Xword               n = a.get_symbols_num();
+            std::string             s = "n=" + std::to_string( n );
+            for ( auto k : bidx( n, 0, false, true ) ) {
+                std::string   name;
+                Elf64_Addr    value = 0;
+                Elf_Xword     size  = 0;
+                unsigned char bind = 0, type = 0, other = 0;
+                Elf_Half      shndx = 0;
+                bool          r     = a.get_symbol( k, name, value, size, bind, type, shndx, other );
+                s += " " + std::to_string( k ) + ":" + ( r ? "true" : "false" ) + "/" + datastr( name.data(), name.size() ) + "/" +
+                     std::to_string( value ) + "/" + std::to_string( size ) + "/" + std::to_string( bind ) + "/" +
+                     std::to_string( type ) + "/" + std::to_string( shndx ) + "/" + std::to_string( other );
+            }
+            fprintf( out, "syms %s\n", s.c_str() );
+        }
         // ---- end of C01 inspection ops ----------------------------------------------------------
         else if ( op == "create" ) {
             unsigned char cls = kvn( t, "cls", 64 ) == 32 ? ELFCLASS32 : ELFCLASS64;
